@@ -33,7 +33,9 @@ func VerifWiseRow() {
 	acc := reg.Accounts().MustGet("Assets:Wise")
 	p := parser{registry: reg, reader: csv.NewReader(strings.NewReader(zzWiseHeader + row)), account: acc,
 		feeAccount: reg.Accounts().MustGet("Expenses:Fees"), tradingAccount: reg.Accounts().MustGet("Expenses:Trading"), journal: journal.New()}
-	err := p.parse()
+	var err error
+	stdout := v.CaptureStdout(func() { err = p.parse() })
+	v.Assert(stdout == "", "importer-writes-nothing-but-the-journal")
 	v.Assert(err == nil, "well-formed-row-is-imported")
 	if err != nil {
 		return
